@@ -639,6 +639,8 @@ class Node:
                 # raise NotImplementedError("Cross-tree adding")
             if data_id is not None and data_id != source_node._data_id:
                 raise UniqueConstraintError(f"data_id conflict: {source_node}")
+            # The copy references the same data, so it keeps the source's data_id
+            data_id = source_node._data_id
 
             # If creating an inherited node, use the parent class as constructor
             child_class = child.__class__
